@@ -562,6 +562,20 @@ def render_stream(ctx, drv, cases):
                 s = dec(real[3:])
                 ctx.count("render:float-quotient" if " / " in s else ("render:float-integer" if re.search(r"[( ]-?\d+\.0\)", s) and "e" not in s else "render:float-decimal"))
         rendered[lname] = out
+    # the hypothesis of C05_float_fallback_literal_partial on every constant that takes the decimal fallback
+    fb = []
+    for (ty, v), r in zip(cases, rendered["c"]):
+        if ty[0] == "f" and r is not None and " / " not in r and not re.search(r"\) -?\d+\.0\)$", r):
+            q = Fr(v)
+            try:
+                fb.append(struct.unpack("<Q", struct.pack("<d", q.numerator / q.denominator))[0])
+            except OverflowError:
+                pass
+    for b, a in zip(fb, drv.ask([f"short {b:x}" for b in fb], timeout=1800)):
+        ctx.traces += 1
+        ctx.count("fallback:repr-reads-back-evaluated")
+        if a != "1":
+            ctx.disagree("fallback-hypothesis:reprReadsBack", f"{b:x}", "false", "the decimal text does not read back in the model")
     # overridden configuration, the cast_format argument, values outside what a Constant can hold, error branches
     rng = ctx.rng
     sub = rng.sample(cases, min(len(cases), 150 if ctx.quick else 1500))
@@ -637,7 +651,7 @@ def render_stream(ctx, drv, cases):
 
 
 TEMPLATE_RE = {
-    "c": re.compile(r"^#define \w+?_\d+_\d+_(K\d+) \((.*)\)\s*$"),
+    "c": re.compile(r"^#define \w+?_\d+_\d+_(K\d+) (.*?)\s*$"),
     "cpp": re.compile(r"^\s*static constexpr [\w:]+ (K\d+) = (.*);\s*$"),
     "py": re.compile(r"^    (K\d+):\s+\w+ = (.*)$"),
 }
@@ -651,7 +665,7 @@ def dsdl_text_of(ty, v):
     return name, (str(v.numerator) if v.denominator == 1 else f"{v.numerator}/{v.denominator}")
 
 
-def template_stream(ctx, drv, cases):
+def template_stream(ctx, drv, cases, tally):
     """nnvg of the tree under check on a namespace of constants: the lines the templates emit against the model."""
     rng = ctx.rng
     pick = [c for c in cases if c[0] == "b"] + rng.sample([c for c in cases if c[0][0] in "us"], 60 if ctx.quick else 400) \
@@ -704,15 +718,56 @@ def template_stream(ctx, drv, cases):
             tok = val_token(c.value.native_value)
             reqs.append(f"py {ty} {tok}" if lang == "py" else f"lit {lang} {ty} {tok}")
         model = drv.ask(reqs)
+        if lang == "c":             # definitions.j2 wraps the literal: `#define X (lit)`
+            model = [("ok " + a) if m.startswith("ok ") else m for m, a in zip(model, drv.ask([f"macro {m[3:]}" if m.startswith("ok ") else "macro -" for m in model]))]
         for n, m in zip(names, model):
             want = dec(m[3:]) if m.startswith("ok ") else m
             got = found[lang].get(n)
             ctx.traces += 1
             ctx.case(("template", lang, n, str(consts[n].value)[:80]), True)
             ctx.count("template-lines:" + lang)
-            # the C macro body is `(lit)`: the template's own parentheses are stripped by the regex
             if got != want:
                 ctx.disagree("template-line:" + lang, {"constant": str(consts[n])[:300]}, want, got)
+        # ---- the property on what the templates really wrote
+        def tykey(c):
+            t = c.data_type
+            if isinstance(t, pydsdl.BooleanType):
+                return "b", bool(c.value.native_value)
+            k = "f" if isinstance(t, pydsdl.FloatType) else ("u" if isinstance(t, pydsdl.UnsignedIntegerType) else "s")
+            return k + str(t.bit_length), Fr(c.value.native_value)
+        have = [n for n in names if found[lang].get(n) is not None]
+        if lang == "py":
+            for n in have:
+                ty, v = tykey(consts[n])
+                src = found[lang][n]
+                try:
+                    x = eval(src, {"__builtins__": {}}, {})
+                except Exception as e:  # noqa
+                    x = e
+                if ty == "b":
+                    ok = x is v
+                elif ty[0] in "us":
+                    ok = type(x) is int and x == int(v)
+                else:
+                    ok = isinstance(x, float) and not math.isinf(x) and not math.isnan(x) and abs(Fr(x) - v) <= ulp(v, 64) / 2
+                if not ok:
+                    tally({"kind": "constant-literal", "cause": "py-value", "lang": "py"},
+                          f"generated Python class constant {str(consts[n])[:100]} is written `{src[:100]}` and evaluates to {x!r:.60}",
+                          {"type": ty, "value": str(v), "expression": src, "constant": str(consts[n])[:300]})
+        else:
+            dialect = "c11" if lang == "c" else "cpp14"
+            for tool in COMPILERS[dialect][:1]:
+                ans, diag, log = probe(ctx, dialect, tool, [found[lang][n] for n in have], False, "tpl_" + lang)
+                if ans is None:
+                    ctx.disagree("template-probe:" + lang, "the constants as the templates wrote them", "compile", log[-1200:])
+                    continue
+                for k, n in enumerate(have):
+                    ty, v = tykey(consts[n])
+                    verdict = judge_constant(ty, v, lang, ans[k], k in diag)
+                    if verdict is not None:
+                        tally({"kind": "constant-literal", "cause": verdict[0], "lang": lang},
+                              f"{tool[0]}: generated constant {str(consts[n])[:100]} written as {found[lang][n][:100]}: {verdict[1]}",
+                              {"type": ty, "value": str(v), "literal": found[lang][n], "constant": str(consts[n])[:300]})
     return consts, found
 
 
@@ -744,11 +799,17 @@ def compiled_stream(ctx, drv, cases, rendered, tally):
     """gcc / clang / g++ / clang++ on the rendered literals (property oracle + tie of `evalc`) and on the literal zoo."""
     rng = ctx.rng
     idx = list(range(len(cases)))
-    nmax = 700 if ctx.quick else 6000
+    nmax = 1700 if ctx.quick else 9000
     if len(idx) > nmax:
-        keep = [i for i in idx if (cases[i][0] in ("s64", "u64", "b") and i % 3 == 0) or cases[i][0][0] == "f"]
-        keep = keep[:nmax // 2]
-        idx = sorted(set(keep + rng.sample(idx, nmax - len(keep))))
+        def extreme(ty, v):
+            if ty[0] not in "us":
+                return True                     # bool and every floating constant
+            w = int(ty[1:])
+            lo, hi = (0, 2 ** w - 1) if ty[0] == "u" else (-(2 ** (w - 1)), 2 ** (w - 1) - 1)
+            return int(v) in (lo, hi, lo + 1, hi - 1) or w >= 63
+        keep = [i for i in idx if extreme(*cases[i])][:nmax - 200]
+        rest = [i for i in idx if i not in set(keep)]
+        idx = sorted(set(keep + rng.sample(rest, min(len(rest), nmax - len(keep)))))
     for dialect, lname in (("c11", "c"), ("cpp14", "cpp14")):
         lits = [rendered[lname][i] for i in idx]
         ok = [i for i, l in zip(idx, lits) if l is not None]
@@ -943,7 +1004,7 @@ def run(ctx, drivers=None):
     known_witnesses(ctx, drv, tally)
     python_arithmetic_stream(ctx, drv)
     rendered = render_stream(ctx, drv, cases)
-    template_stream(ctx, drv, cases)
+    template_stream(ctx, drv, cases, tally)
     compiled_stream(ctx, drv, cases, rendered, tally)
     python_stream(ctx, drv, cases, tally)
     ctx.sample({"stream": "c05_literals", "type": cases[-1][0], "value": str(cases[-1][1])[:80], "c": (rendered["c"][-1] or "")[:100]})
